@@ -28,11 +28,6 @@ func (s *keySet) insert(k uint64, c uint8) bool {
 		k = 1
 	}
 
-	if s.n*4 >= len(s.tab)*3 {
-		s.full = true
-		return false
-	}
-
 	i := k & s.mask
 	for {
 		v := s.tab[i]
@@ -47,6 +42,12 @@ func (s *keySet) insert(k uint64, c uint8) bool {
 		}
 
 		if v == 0 {
+			if s.n*4 >= len(s.tab)*3 {
+				// table is at its load limit (and at its size cap): remember nothing new
+				s.full = true
+				return false
+			}
+
 			s.tab[i] = k
 			s.cost[i] = c
 			s.n++
@@ -60,7 +61,9 @@ func (s *keySet) insert(k uint64, c uint8) bool {
 
 // grow doubles the table when it is more than half full (called between executions only).
 func (s *keySet) grow() {
-	if s.n*2 < len(s.tab) || len(s.tab) >= 1<<27 {
+	// capped at 2^24 slots (150 MB): beyond that new states are simply not remembered any more, which costs
+	// pruning power but never soundness
+	if s.n*2 < len(s.tab) || len(s.tab) >= 1<<24 {
 		return
 	}
 
